@@ -43,6 +43,10 @@ CHECKS = {
          "goldens from fresh interpreters; hash seeds and cwd contents are finite menus; pint caches excluded from the state digest", "history BFS over operation sequences + all order-preserving interleavings of two operation lists on the implementation; subprocess enumeration of hash seeds x cwd contents", "6 C14"),
  "C15": ("complete product of 4 grids x 3 component sets x 2 bases: every keyword and alias of the writer rules written through the real ResultsWriter and re-read by an independent parser: file names, row/column labels on the requested grids in GPa / A^3, values = in-memory arrays in the documented unit, aliases byte-identical, adiabatic vs isothermal selection, one file per component, unit and file-name overrides, write_output() section handling",
          "expected names/units transcribed from the documented table; CODATA unit factors", "exhaustive enumeration of keywords x bases x grids on the implementation, oracle = independent parser + in-memory results", "6 C15"),
+ "C08": ("part 1 decided exactly: for each of the 9 systems the Laue rotation group is closed by BFS from exact generators over Q(sqrt3) (orders 1/2/4/4/8/3/6/12/24), every group element x every basis vector of the relations' null space (inclusion) and the Reynolds average of each of the 21 unit tensors against every packaged relation (reverse inclusion), dimensions 21/13/9/7/6/7/6/5/3; part 2: fill_cij on every sufficient subset of the non-vanishing components (all 5584 in thorough; 4 small systems complete + boundary layers in quick) x n_V {1,2,5} returns the invariant tensor; apply_symetry_on_elast_data on minimal/full sets",
+         "sympy exact arithmetic; sufficiency decided by rank of the coordinate projection of the invariant subspace (laue_ref), independent of fill_cij", "explicit-state closure of finite groups + exhaustive subset enumeration on the implementation, exact linear-algebra oracle", "6 C08"),
+ "C09": ("refusal <=> (insufficient and not ignore_rank) or (inconsistent and not ignore_residuals) over every subset of the non-vanishing components of 8 systems (thorough: 483456 fills; quick: small systems complete + boundary layers) x 4 flag combinations x {consistent, inconsistent below/above tolerance}; presentation deviation lattice (dtype, case, column order, extra columns, cwd contents incl. directory named like the system and user-written relations file, drop_atol) <=2 (<=3 thorough); the cij fill command; depth-3 chains fill/CLI; on acceptance: movement and relation bounds, pass-through, drop rule, presentation independence",
+         "laue_ref sufficiency oracle; perturbations >= 8x away from the tolerance under both readings of 'residual'; triclinic subsets limited to |S| 19..21", "exhaustive subset x flag enumeration + deviation lattice + depth-3 operation chains on the implementation", "6 C09"),
  "C10": ("complete enumeration of the finite domain (81 tuples, 36 Voigt pairs, all spellings, 81x81 equality pairs, out-of-range neighbours) with the orbit graph explored by BFS; decides the property outright because the domain is finite",
          "reference orbits from voigt_ref (union of generator images); CPython hashing", "exhaustive enumeration of the finite index domain + BFS of the orbit graph against a reference quotient", "6 C10"),
 }
